@@ -19,6 +19,7 @@
 From Coq Require Import List String Bool.
 From GX.Model Require Import Conc.
 From GX.Proofs Require Import ConcProofs ConcSerial.
+From GX.Proofs Require InterleaveProofs ConcOrder.
 From GX.Generated Require Import LockFacts KnownUnlocked.
 Import ListNotations.
 Open Scope string_scope.
@@ -67,6 +68,15 @@ Theorem C07_serialisable : forall (S : Type) (c0 : config S) log c,
       (calls_of S j log ++ pending S t ++ t_calls S t = t_calls S t0)%list.
 Proof. exact serialisable. Qed.
 
+(* order-independent structures: when the bodies commute as state transformers (Bloom bits,
+   Count-Min cells, HyperLogLog registers -- the C16 lemmas), the final state of ANY concurrent
+   execution equals the state produced by the same calls applied one after another in ANY order *)
+Theorem C07_order_independent : forall (S : Type) (c0 : config S) log c log',
+  initial S c0 -> mutex_inv S c0 -> reach S c0 log c -> c_holder S c = None ->
+  InterleaveProofs.pairwise_commute (ConcOrder.transformers S log) -> Permutation.Permutation log log' ->
+  c_shared S c = apply_log S log' (c_shared S c0).
+Proof. exact ConcOrder.order_independent. Qed.
+
 Theorem C07_complete_execution : forall (S : Type) (c0 : config S) log c,
   initial S c0 -> mutex_inv S c0 -> reach S c0 log c -> c_holder S c = None ->
   (forall j t, nth_error (c_threads S c) j = Some t -> t_pc S t = Idle S /\ t_calls S t = []) ->
@@ -81,4 +91,5 @@ Print Assumptions C07_mutex_invariant_preserved.
 Print Assumptions C07_at_most_one_inside.
 Print Assumptions C07_only_holder_changes_state.
 Print Assumptions C07_serialisable.
+Print Assumptions C07_order_independent.
 Print Assumptions C07_complete_execution.
